@@ -39,6 +39,24 @@ fn h<T: Hash + ?Sized>(t: &T) -> u64 {
     s.finish()
 }
 
+/// a hasher that records every `write` call: two values that hash alike under every `Hasher`
+/// (what `Borrow<str>` promises) feed the same sequence of writes
+#[derive(Default)]
+struct RecHasher(Vec<Vec<u8>>);
+impl Hasher for RecHasher {
+    fn finish(&self) -> u64 {
+        0
+    }
+    fn write(&mut self, bytes: &[u8]) {
+        self.0.push(bytes.to_vec());
+    }
+}
+fn hw<T: Hash + ?Sized>(t: &T) -> Vec<Vec<u8>> {
+    let mut s = RecHasher::default();
+    t.hash(&mut s);
+    s.0
+}
+
 macro_rules! try_arrays {
     ($bytes:expr, $out:expr, $($n:literal)+) => {
         match $bytes.len() {
@@ -90,6 +108,7 @@ fn agree(name: &str, b: &ByteString, s: &str) -> Result<(), vcore::Fail> {
     let ab: &[u8] = b.as_ref();
     vensure!(ab == s.as_bytes(), "C20/asref", "{}: AsRef<[u8]> differs", name);
     vensure!(h(b) == h(s), "C20/hash", "{}: Hash differs from str's (Borrow<str> contract)", name);
+    vensure!(hw(b) == hw(s), "C20/hash", "{}: Hash feeds the hasher {:?}, str feeds it {:?}: hashers that are sensitive to write boundaries disagree (Borrow<str> contract)", name, hw(b), hw(s));
     vensure!(*b == *s && *b == s && *b == s.to_string(), "C20/eq", "{}: == with str/&str/String is false", name);
     Ok(())
 }
@@ -241,7 +260,7 @@ pub fn check_case(c: &Case) -> CaseResult {
 pub const ALPHABET: [u8; 17] = [
     b'a', 0x7F, 0xC3, 0xA9, 0xE2, 0x82, 0xAC, 0xF0, 0x9F, 0x98, 0x80, 0xC0, 0xED, 0xA0, 0xF4, 0x90, 0xFF,
 ];
-pub const CHARS: [char; 6] = ['a', '\u{0}', 'é', '€', '😀', '\u{10FFFF}'];
+pub const CHARS: [char; 7] = ['a', '\u{0}', 'é', '¿', '€', '😀', '\u{10FFFF}'];
 const OTHERS: [&str; 7] = ["", "a", "é", "aé", "€", "b", "😀"];
 
 fn byte_strategy() -> impl Strategy<Value = u8> {
@@ -286,7 +305,7 @@ pub fn case_from_bytes(data: &[u8]) -> Case {
 const RULE: &str = "byte string built into a ByteString through every constructor and compared with str on validity, content, formatting, hashing, ordering, split_at (all indices 0..=len+1 for short inputs, panic parity under catch_unwind) and slice_ref (all char-boundary sub-slices for short inputs), recursively on derived values; non-trivial = input contains a byte >= 0x80 (multi-byte sequence or invalid byte); distinct by the whole case";
 
 pub fn run(ctx: &Ctx) {
-    ctx.assume("`str`/`String` of the standard library are the reference; hashing is compared with std's DefaultHasher");
+    ctx.assume("`str`/`String` of the standard library are the reference; hashing is compared with std's DefaultHasher and, write call by write call, with a recording hasher");
     ctx.run_corpus::<Case>("bytes", check_case);
     // exhaustive over bytes
     let max_len = ctx.tier.pick(4u32, 5u32);
@@ -307,16 +326,16 @@ pub fn run(ctx: &Ctx) {
         },
         check_case,
     );
-    // exhaustive over valid strings: all strings of <= 5 (quick 4) chars over 6 characters, each against every OTHERS
+    // exhaustive over valid strings: all strings of <= 5 (quick 4) chars over 7 characters, each against every OTHERS
     let max_chars = ctx.tier.pick(4u32, 5u32);
-    let total_c: u64 = (0..=max_chars).map(|l| 6u64.pow(l)).sum::<u64>() * OTHERS.len() as u64;
+    let total_c: u64 = (0..=max_chars).map(|l| (CHARS.len() as u64).pow(l)).sum::<u64>() * OTHERS.len() as u64;
     ctx.run_enum(
         Part::new("chars-exhaustive", RULE, total_c),
         |shard, n, f: &mut dyn FnMut(&Case) -> bool| {
             let mut ix = shard as u64;
             while ix < total_c {
                 let o = (ix % OTHERS.len() as u64) as usize;
-                let idx = crate::c15::nth_string(ix / OTHERS.len() as u64, &[0, 1, 2, 3, 4, 5]);
+                let idx = crate::c15::nth_string(ix / OTHERS.len() as u64, &[0, 1, 2, 3, 4, 5, 6]);
                 let s: String = idx.iter().map(|i| CHARS[*i as usize]).collect();
                 if !f(&Case { bytes: s.into_bytes(), other: OTHERS[o].as_bytes().to_vec(), split: 0, sub: (0, 65535) }) {
                     return;
